@@ -49,7 +49,7 @@ pub fn p_rlib(s: &Sexp) -> Option<raw::Library> {
         for row in &v[3].list()?[1..] {
             let r = row.list()?;
             let ln = r[0].int()?;
-            let mut layer = raw::Layer::from_num(ln as i16);
+            let mut layer = raw::Layer::new(ln as i16, format!("L{}", ln));
             if let Some(p) = r[1].int() { layer.add_purpose(p as i16, raw::LayerPurpose::Pin).ok()?; }
             if let Some(o) = r[2].int() { layer.add_purpose(o as i16, raw::LayerPurpose::Obstruction).ok()?; }
             keys.insert(ln, layers.add(layer));
@@ -407,7 +407,12 @@ pub fn tag(line: &str) -> String {
 fn gen_shape(rng: &mut Rng) -> String {
     match rng.below(3) {
         0 => format!("(rect {} {} {} {})", rng.range(-50, 50), rng.range(-50, 50), rng.range(-50, 50), rng.range(-50, 50)),
-        1 => format!("(polygon {})", (0..3 + rng.below(3)).map(|_| format!("({} {})", rng.range(-50, 50), rng.range(-50, 50))).collect::<Vec<_>>().join(" ")),
+        1 => {
+            // vertex lists with repeated vertices too: explicitly closed (last = first), doubled vertex
+            let mut v: Vec<String> = (0..3 + rng.below(3)).map(|_| format!("({} {})", rng.range(-50, 50), rng.range(-50, 50))).collect();
+            match rng.below(6) { 0 => v.push(v[0].clone()), 1 => { let k = rng.below(v.len() as u64) as usize; v.insert(k, v[k].clone()) } _ => {} }
+            format!("(polygon {})", v.join(" "))
+        }
         _ => format!("(path {} {})", rng.below(9), (0..2 + rng.below(3)).map(|_| format!("({} {})", rng.range(-50, 50), rng.range(-50, 50))).collect::<Vec<_>>().join(" ")),
     }
 }
